@@ -17,6 +17,10 @@ def run(ctx):
                    certs=[("ff", 2, "A"), ("notar", 1, "A")],
                    blocks=[((2, "A"), (1, "A")), ((1, "A"), (0, "G"))])
         P.run_model(ctx, "bounds", [2, 2, 1], 0, 7, [s2], INVS, P.rel_c04, witnesses=["W_Pruned"])
+        # admission does not depend on which certificates the slot already holds (received or formed before the vote)
+        s4 = P.scn(votes=P.scn_votes([5], ["A"], kinds, validators=[1]),
+                   certs=[("final", 5, "-"), ("notar", 5, "A"), ("skip", 5, "-")])
+        P.run_model(ctx, "withcerts", [2, 2, 1], 0, 7, [s4], INVS, P.rel_c04, constraint=None)
     else:
         s1 = P.scn(votes=P.scn_votes([5], ["A", "B"], kinds))
         P.run_model(ctx, "admit3", [2, 2, 1], 0, 7, [s1], INVS, P.rel_c04, sample=1500000, timeout=3000)
@@ -26,6 +30,9 @@ def run(ctx):
                    certs=[("ff", 2, "A"), ("notar", 1, "A"), ("final", 1, "-")],
                    blocks=[((2, "A"), (1, "A")), ((1, "A"), (0, "G"))])
         P.run_model(ctx, "bounds", [2, 2, 1], 0, 7, [s2], INVS, P.rel_c04, witnesses=["W_Pruned"])
+        s4 = P.scn(votes=P.scn_votes([5], ["A", "B"], kinds, validators=[1, 2]),
+                   certs=[("final", 5, "-"), ("notar", 5, "A"), ("skip", 5, "-"), ("nf", 5, "B")])
+        P.run_model(ctx, "withcerts", [2, 2, 1], 0, 7, [s4], INVS, P.rel_c04, sample=1000000, timeout=3000)
     # code -> spec on real executions: every pool call / Votor step of every correct node of simulated networks
     # (equivocating and noisy Byzantine validators, loss, crashes, standstill recovery) is a transition of the spec
     from .. import nodetrace as NT
